@@ -138,6 +138,12 @@ def cases(tier, seed):
                                                         {"b": "acutecomb", "m": [64, 0, 0, 64], "d": [250 * P, 0]}], "anchors": [], "w": 600 * P, "h": 0, "u": []}
                 m["ufo"]["order"] = list(m["ufo"]["order"]) + ["aacute.nest", "amixed", "amixed.nest"]
                 m["ufo"].setdefault("lib", {})["com.github.googlei18n.ufo2ft.filters"] = flt
+        if k % 4 == 2:
+            # every master's own lib carries a (different) public.skipExportGlyphs list: the list-of-UFOs entry point takes
+            # their union
+            for j, m in enumerate(fam["masters"]):
+                m["ufo"].setdefault("lib", {})["public.skipExportGlyphs"] = [["a.alt"], ["a.alt", "period"], ["one"]][j % 3]
+            fam["_listFirst"] = True
         if k % 3 == 0:
             # two variable fonts, one of them with font-info overrides in its lib (applied after the masters are compiled)
             fam["variableFonts"] = [{"name": "PlainVF"}, {"name": "NamedVF", "lib": {"public.fontInfo": {
@@ -148,6 +154,8 @@ def cases(tier, seed):
             fn = rng.choice(DS_FNS + ["compileInterpolatableTTFs"])
             if "variableFonts" in fam and rng.random() < 0.7:
                 fn = rng.choice(["compileVariableTTFs", "compileVariableCFF2s"])
+            if fam.get("_listFirst") and not hist:
+                fn = "compileInterpolatableTTFs"
             hist.append({"fn": fn, "kwargs": _valid_opts(fn, rng.choice(DS_OPTS)) if fn != "compileInterpolatableTTFs" else {}})
         specs.append({"source": {"kind": "family", "family": fam}, "lib": rng.choice(["ufoLib2", "defcon"]), "history": hist})
     specs += _fixture_specs(rng, tier)
